@@ -48,7 +48,21 @@ theorem foldl_last_opt {σ ω β : Type} (step : σ → ω → σ) (get : σ →
       simp only [getLast?_cons_or]
       cases (List.filterMap sel rest).getLast? <;> rfl
 
+/-- A flag that steps can only raise ends up raised iff some step raised it. -/
+theorem foldl_flag {σ ω : Type} (step : σ → ω → σ) (get : σ → Bool) (sel : ω → Bool)
+    (h : ∀ s o, get (step s o) = (get s || sel o)) (ops : List ω) (s : σ) :
+    get (ops.foldl step s) = (get s || ops.any sel) := by
+  induction ops generalizing s with
+  | nil => simp
+  | cons o rest ih => rw [List.foldl_cons, ih, h, List.any_cons, Bool.or_assoc]
+
 /-! ### client builder -/
+
+theorem build_native (ops : List (ClientOp Root Chain)) :
+    (ClientTlsConfig.build ops).withNativeRoots = asksNative ops := by
+  unfold ClientTlsConfig.build asksNative
+  rw [foldl_flag ClientOp.apply (·.withNativeRoots) asksNativeOp (by intro s o; cases o <;> simp [ClientOp.apply, asksNativeOp])]
+  simp
 
 theorem build_domain (ops : List (ClientOp Root Chain)) :
     (ClientTlsConfig.build ops).domain = configuredDomain ops := by
